@@ -8,9 +8,13 @@ FLAVORS = ["plain", "plain", "plain", "uniform_scale", "sensor_scale", "const_se
            "corr", "int", "float32", "fortran", "strided", "readonly", "baseline", "colslice", "rowstep"]
 
 
-def regime_series(rng, T, N, n_reg=2, seg=20, scale=1.0):
+def regime_series(rng, T, N, n_reg=2, seg=20, scale=1.0, weak=False):
     mixes = [rng.normal(size=(N, N)) + np.eye(N) * rng.uniform(0.2, 1.5) for _ in range(n_reg)]
     offs = [rng.normal(size=N) * 3 for _ in range(n_reg)]
+    if weak:
+        # regimes that differ only slightly per sample: where the labelling should switch is decided by sums over many points
+        mixes = [np.eye(N) for _ in range(n_reg)]
+        offs = [np.full(N, 0.35 * r_) for r_ in range(n_reg)]
     out = np.zeros((T, N))
     t = 0
     r = 0
@@ -27,7 +31,7 @@ def make_series(d):
     """d: dict(seed, T, N, n_reg, seg, scale, flavor) -> ndarray (T, N)."""
     rng = np.random.default_rng([int(d["seed"]), 7919])
     T, N = int(d["T"]), int(d["N"])
-    x = regime_series(rng, T, N, int(d.get("n_reg", 2)), int(d.get("seg", 20)), 1.0)
+    x = regime_series(rng, T, N, int(d.get("n_reg", 2)), int(d.get("seg", 20)), 1.0, weak=bool(d.get("weak")))
     fl = d.get("flavor", "plain")
     if fl == "uniform_scale":
         x = x * float(d.get("scale", 1.0))
